@@ -17,9 +17,9 @@ import (
 )
 
 type seedMeta struct {
-	ID         string                            `json:"id"`
-	Breaks     string                            `json:"breaks_property"`
-	DetectedBy map[string][]map[string]string    `json:"detected_by"`
+	ID         string                         `json:"id"`
+	Breaks     string                         `json:"breaks_property"`
+	DetectedBy map[string][]map[string]string `json:"detected_by"`
 }
 
 type selfTestResult struct {
